@@ -1,0 +1,38 @@
+//go:build verif
+
+// Package verifhook is compiled only with -tags verif.  It forwards yield
+// points placed in the library to a handler installed by a test harness.
+package verifhook
+
+import "sync/atomic"
+
+type Kind int
+
+const (
+	Lock Kind = iota
+	Unlock
+	Send
+	Recv
+	Close
+	Spawn
+	Enter
+	Exit
+)
+
+type Handler func(kind Kind, obj any)
+
+var handler atomic.Pointer[Handler]
+
+func Install(h Handler) {
+	if h == nil {
+		handler.Store(nil)
+		return
+	}
+	handler.Store(&h)
+}
+
+func Yield(kind Kind, obj any) {
+	if h := handler.Load(); h != nil {
+		(*h)(kind, obj)
+	}
+}
